@@ -410,7 +410,7 @@ def run(ctx):
     pending = []
     names = [o[0] for o in OPS]
     weights = [o[1] for o in OPS]
-    for _ in range(ctx.pick(900, 40000)):
+    for _ in range(ctx.pick(2500, 60000)):
         if ctx.out_of_time():
             break
         op = rng.choices(names, weights)[0]
